@@ -747,7 +747,7 @@ def width_cases(full16):
 
 
 def shards(tier):
-    n = 120 if tier == "quick" else 3000
+    n = 500 if tier == "quick" else 8000
     out = [{"kind": "hyp", "i": i, "n": n} for i in range(16)]
     wc = width_cases(tier == "thorough")
     for i in range(0, len(wc), 8):
